@@ -42,7 +42,8 @@ Limit(v) == IF v.cliConc # -1 THEN v.cliConc
             ELSE IF v.bldConc = 0 THEN 64 ELSE v.bldConc
 FailFast(v) == v.cliFF \/ v.bldFF
 
-Tags == {NoTag, [n |-> -1, d |-> -1], [n |-> 2, d |-> -1], [n |-> -1, d |-> 3], [n |-> 2, d |-> 3]}
+Tags == {NoTag, [n |-> -1, d |-> -1], [n |-> 2, d |-> -1], [n |-> -1, d |-> 3], [n |-> 2, d |-> 3],
+         [n |-> 3, d |-> 90], [n |-> -1, d |-> 120]}     \* rendered as 1m30s and 2min
 
 Base == [ts |-> NoTag, tr |-> NoTag, tf |-> NoTag, hasRule |-> TRUE,
          cliRetry |-> -1, bldRetry |-> -1, cliAfter |-> -1, bldAfter |-> -1,
